@@ -572,6 +572,53 @@ def cases_far(tier):
             for p in itertools.product(range(n), repeat=3)]
 
 
+# ----------------------------------- the adjoint routine, call after call
+FN_ASEQ = 'mc.checks.c15_volavg:case_adjseq'
+# new grids that share shape_cells AND origin AND extent but not the widths
+ASEQ_NEW = ((0, 1, 3, 6), (0, 2, 5, 6), (0, 3, 4, 6), (0, 2, 4, 6))
+ASEQ_OLD = (0, 1, 2, 3, 4, 5, 6)
+
+
+def case_adjseq(c):
+    """_interp_volume_average_adj is called for a SEQUENCE of computational
+    grids (as Simulation.gradient does for source/frequency dependent
+    grids); grids that agree in shape and origin but not in their widths must
+    each get their own transposed averaging matrix."""
+    old = [nodes_of(ASEQ_OLD, d) for d in range(3)]
+    gold = mesh_from_nodes(old)
+    viol, compared = [], 0
+    for k, idx in enumerate(c['seq']):
+        lat = [ASEQ_NEW[i] for i in idx]
+        gnew = mesh_from_nodes([nodes_of(lat[d], d) for d in range(3)])
+        with warnings.catch_warnings():
+            warnings.simplefilter('ignore')
+            M = dense_adjoint(gold, gnew)
+        F = volavg.matrix_3d(old, grid_nodes(gnew))
+        compared += 1
+        if not np.all(np.isfinite(M)) or not np.abs(M - F).max() <= 1e-13:
+            viol.append({
+                'cls': 'adjoint-routine-depends-on-earlier-calls' if k else
+                       'adjoint-routine-is-not-transpose-of-forward-map',
+                'what': f'call {k+1} of the grid sequence {c["seq"]}: '
+                        f'max |M - F_ref| = {np.nanmax(np.abs(M - F)):.2e}'})
+            break
+    return {'viol': viol, 'compared': compared, 'transitions': len(c['seq']),
+            'nontrivial': len(c['seq']) > 1, 'outcome': (len(c['seq']),)}
+
+
+def cases_adjseq(tier):
+    n = len(ASEQ_NEW)
+    tri = [(i, (i + 1) % n, (i + 2) % n) for i in range(n)] + \
+        [(i, i, i) for i in range(n)]
+    out = []
+    for d in (2, 3):
+        for seq in itertools.product(range(len(tri)), repeat=d):
+            if tier == 'quick' and d == 3 and seq[0] > 1:
+                continue
+            out.append({'seq': [tri[i] for i in seq]})
+    return out
+
+
 # ------------------------------------------------- gradient back on the model
 SIM_GRIDS = {
     # computational grids (widths per direction, origin) for a model grid of
@@ -728,6 +775,14 @@ def run(ctx):
                          'non-nested, overhang) at 3 origins (UTM-like, '
                          'large negative, zero), metre-sized units; linear '
                          'and log mode vs the lattice reference',
+                    time_cap=cap)
+    if ctx.wants('adjoint-sequences'):
+        ctx.explore('adjoint-sequences', FN_ASEQ, cases_adjseq(ctx.tier),
+                    engine='E2',
+                    rule='sequences (length 2, 3) of calls of the adjoint '
+                         'routine for computational grids that share shape, '
+                         'origin and extent but not their widths; full basis '
+                         'per call vs the reference transpose',
                     time_cap=cap)
     if ctx.wants('simulation-gradient'):
         ctx.explore('simulation-gradient', FN_SIM, cases_simgrad(ctx.tier),
